@@ -322,6 +322,10 @@ def run(ctx):
         wr = [e for e in p.events if e.kind == "WRITE" and e["stream"] == STREAM]
         good = good and len(wr) == 1 and wr[0]["data"] == ("getvalue", inner[0]["stream"]) and p.index(sb[0]) < p.index(wr[0]) and sb[0]["stream"] == STREAM
     ctx.ob("C03.R5", fi, good and n == 2, "Prefixed._build writes len(payload) (+ sizeof(lengthfield) iff includelength) into the length field, then the payload", key="Prefixed length")
+    # terminator rules on the parse side: unit-wide reads, include/consume/require (shared with C08.R2)
+    from . import C08
+    fi, paths = own_method_paths(ctx, "NullTerminated", "_parse")
+    C08.null_terminated(ctx, fi, paths, "C03.R5")
     fi, paths = own_method_paths(ctx, "NullTerminated", "_build")
     ok = len(paths) == 1
     if ok:
@@ -335,7 +339,7 @@ def run(ctx):
     one = [p for p in paths if p.returns and N.mk_cmp("==", ("call", ("free", "len"), (pad,), ()), N.const(1)) in p.guards()]
     ok = bool(one) and all(any(e.kind == "NEWSTREAM" and e["args"] and e["args"][0][0] == "call" and e["args"][0][1][0] == "attr" and e["args"][0][1][2] == "rstrip" and e["args"][0][2] == (pad,) for e in p.events) for p in one)
     ctx.ob("C03.R5", fi, ok, "NullStripped strips the pad byte from the right only", key="NullStripped rstrip")
-    ctx.floor("C03.R5", 9)
+    ctx.floor("C03.R5", 17)
 
     if ctx.tier == "thorough":
         from .. import interval
